@@ -256,8 +256,12 @@ impl<'a> Host<'a> {
                 self.rep.inconclusive("a NaN payload changed across the boundary (canonicalisation is permitted)");
             }
             other => {
-                let class = plan::shape_class(&self.abi, ty, 0);
-                let sig = format!("rust-e2e:{}:{}:{}", f.dir.name(), what, class);
+                // classify by the part of the value that actually differs
+                let class = match (norm::parse(expected), norm::parse(observed)) {
+                    (Ok(a), Ok(b)) => plan::diff_class(&self.abi, ty, &a, &b),
+                    _ => plan::shape_class(&self.abi, ty, 0),
+                };
+                let sig = format!("rust-e2e:{}:{}:{}", f.dir.name(), what, plan::focus(&class));
                 let msg = format!(
                     "{} {} of `{}` (index {}, type shape {}) arrived changed: expected {} observed {}{} [opts {}]",
                     f.dir.name(),
@@ -278,6 +282,9 @@ impl<'a> Host<'a> {
 
     fn fail(&mut self, f: &Func, what: &str, ty: Option<&Type>, msg: &str) {
         let class = ty.map(|t| plan::shape_class(&self.abi, t, 0)).unwrap_or_else(|| "-".into());
+        // a lift failure cannot be localised: if the signature has a fixed-length list with heap elements, name that
+        let fclass = plan::focus(&self.heap_class(f));
+        let class = if fclass.starts_with("flh<") { fclass } else { plan::focus(&class) };
         let sig = format!("rust-e2e:{}:{}:{}", f.dir.name(), what, class);
         let m = format!("{} `{}`: {} [opts {}]", f.dir.name(), f.symbol(), msg, self.tables.opts);
         let rp = self.replay(f, json!({"what": what, "error": msg}));
@@ -341,7 +348,7 @@ impl<'a> Host<'a> {
         }
         let blocks = alloc::tracked_blocks(12);
         let kind = if after.blocks > before.blocks || after.bytes > before.bytes { "leak" } else { "over-free" };
-        let sig = format!("rust-mem:{}:{}:{}", kind, f.dir.name(), self.heap_class(f));
+        let sig = format!("rust-mem:{}:{}:{}", kind, f.dir.name(), plan::focus(&self.heap_class(f)));
         let msg = format!(
             "{} `{}`: guest heap not restored after the call{}: live blocks {} -> {}, bytes {} -> {}; some live guest blocks (size, align): {:?} [opts {}]",
             f.dir.name(),
